@@ -252,6 +252,12 @@ def p_poison(x, poison=(), big=0, origin_only=()):
                     time.sleep(0.01)
             except Exception:
                 truth('swallowed')
+    if isinstance(x, dict) and x.get('$busy'):
+        # a long, cooperative call: many short sleeps, any exception ends it
+        for _ in range(int(x['$busy'] / 0.02)):
+            time.sleep(0.02)
+        truth('p-leave', x='busy')
+        return ['r', 'busy']
     if x in poison or (isinstance(x, list) and x and x[0] in poison):
         truth('p-leave', x=x, how='raise')
         raise MyError(f'poison {x}')
